@@ -18,7 +18,7 @@ def runScanCase (line : String) : String × String :=
   let fs := fields line
   let fn := field fs "fn"
   let ty := parseIntTy (field fs "ty")
-  let data := unhex (field fs "d")
+  let data := dataField (field fs "d")
   let off := fieldNat fs "off"
   let bl := fieldNat fs "bl"
   let pat := unhex (field fs "p")
